@@ -3,7 +3,8 @@ From Coq Require Import NArith ZArith List Reals.
 From Flocq Require Import Core.
 From KT Require Import Gen.Generated Gen.Alphabet Gen.GeneratedFacts Model.Kmer Model.Ops Model.Rows.
 From KT Require Import Model.Pipeline Proof.Oligo Proof.RowsProof Proof.FileSpecProof.
-From KT Require Import Model.Show Proof.FmtError.
+From KT Require Proof.Merge.
+From KT Require Import Model.Show Proof.FmtError Model.CtrFs Proof.CovFsProof.
 Import ListNotations.
 Open Scope N_scope.
 
@@ -54,6 +55,21 @@ Theorem C08_printed_fraction_correct_to_six_decimals :
     (Rabs (IZR (Z.of_N n) / 1000000 - IZR (Z.of_nat c) / IZR (Z.of_nat (Nat.max 1 t))) <= / 2000000 + bpow radix2 (-53))%R.
 Proof. exact entry_text_correct. Qed.
 
+(* the same through the files of the real pipeline (Model/CtrFs.v, cov_fs, run against the real directory by the
+   `covfs` cases): the table read back from the counts file of count + merge - any partition count, any chunk
+   passes - gives exactly the specified vectors file *)
+Theorem C08_vectors_file_through_the_counts_file :
+  forall k bs bc norm delim mem n_parts chunks recs, (1 <= k <= 31)%nat -> (1 <= bc)%nat -> 1 <= n_parts ->
+  Forall (Forall (fun b => 4 <= b < 256)) recs -> Forall (Forall (fun b => 4 <= b < 256)) (concat chunks) ->
+  CtrFs.cov_rows k bs bc norm delim mem (cov_table (Merge.merged n_parts (map (all_canon k) chunks))) recs
+  = s_cov k bs bc norm delim recs (concat chunks).
+Proof.
+  intros k bs bc norm delim mem n_parts chunks recs Hk Hbc Hn Hr Ha.
+  apply cov_fs_vectors_spec; [exact Hk|exact Hbc|exact Hn| |].
+  - revert Hr. apply Forall_impl. exact bytes_decode.
+  - revert Ha. apply Forall_impl. exact bytes_decode.
+Qed.
+
 Example C08_example : cov_counts 3 2 4 [(0, 5); (2, 1)] [65;65;65;78;71;65;71;65] = [2; 0; 1; 0]%nat.
 Proof. vm_compute. reflexivity. Qed.
 
@@ -63,3 +79,4 @@ Print Assumptions C08_every_window_in_exactly_one_bin.
 Print Assumptions C08_absent_kmer_in_bin_zero.
 Print Assumptions C08_vectors_file_is_one_spec_row_per_record.
 Print Assumptions C08_printed_fraction_correct_to_six_decimals.
+Print Assumptions C08_vectors_file_through_the_counts_file.
